@@ -85,6 +85,22 @@ func init() {
 		ex.draws = append(ex.draws, Draw{Tag: name, Kind: "uint", Vars: []*Term{v}, Width: 8})
 		return v
 	})
+	reg(vr+"Byte2", func(ex *Exec, fn *ssa.Function, args []Value) Value {
+		name := ex.drawName(ex.concreteStrArg(args[0], "tag"))
+		tc := ex.tc
+		lo, hi := args[1].(*Term), args[2].(*Term)
+		v := tc.Var(name, 8)
+		ex.assume(tc.And(tc.Ule(lo, v), tc.Ule(v, hi)))
+		if lo.IsConst() && hi.IsConst() {
+			var dom [4]uint64
+			for x := lo.val; x <= hi.val; x++ {
+				dom[x>>6] |= 1 << (x & 63)
+			}
+			tc.SetDomain(v, &dom)
+		}
+		ex.draws = append(ex.draws, Draw{Tag: name, Kind: "uint", Vars: []*Term{v}, Width: 8})
+		return v
+	})
 	reg(vr+"Str", func(ex *Exec, fn *ssa.Function, args []Value) Value {
 		name := ex.drawName(ex.concreteStrArg(args[0], "tag"))
 		c := ex.concreteIntArg(args[1], "capacity")
@@ -98,6 +114,12 @@ func init() {
 		alpha := ex.concreteStrArg(args[2], "alphabet")
 		s, vars := ex.newSymStr(name, c)
 		tc := ex.tc
+		var dom [4]uint64
+		for _, r := range byteRanges(alpha) {
+			for v := int(r[0]); v <= int(r[1]); v++ {
+				dom[v>>6] |= 1 << (uint(v) & 63)
+			}
+		}
 		for _, b := range s.sym.b {
 			ok := tc.False
 			for _, r := range byteRanges(alpha) {
@@ -108,6 +130,9 @@ func init() {
 				}
 			}
 			ex.assume(ok)
+		}
+		for _, b := range s.sym.b {
+			tc.SetDomain(b, &dom)
 		}
 		ex.draws = append(ex.draws, Draw{Tag: name, Kind: "str", Vars: vars, Cap: c})
 		return s
